@@ -206,3 +206,36 @@ def replay_blocked_overtime_server(prop, v):
 
 
 REPLAYS["Node.finish_service"] = replay_blocked_overtime_server
+
+
+def replay_zero_length_run(prop, v):
+    """function-level input: simulate_until_max_time(0) on an M/M/1 network"""
+    ciw = _ciw()
+    N = ciw.create_network(arrival_distributions=[ciw.dists.Exponential(1)], service_distributions=[ciw.dists.Exponential(2)],
+                           number_of_servers=[1])
+    Q = ciw.Simulation(N)
+    try:
+        Q.simulate_until_max_time(0)
+    except ZeroDivisionError as e:
+        return dict(confirmed=True, kind="whole-run",
+                    transcript=f"M/M/1, simulate_until_max_time(0): ZeroDivisionError({e}) in find_server_utilisation "
+                               "(total server time is 0)")
+    return dict(confirmed=False, kind="whole-run", transcript="returned normally")
+
+
+REPLAYS["Node.find_server_utilisation"] = replay_zero_length_run
+
+
+def replay_max_customers_zero(prop, v):
+    ciw = _ciw()
+    N = ciw.create_network(arrival_distributions=[ciw.dists.Exponential(1)], service_distributions=[ciw.dists.Exponential(2)],
+                           number_of_servers=[1])
+    Q = ciw.Simulation(N)
+    try:
+        Q.simulate_until_max_customers(0)
+    except UnboundLocalError as e:
+        return dict(confirmed=True, kind="whole-run", transcript=f"M/M/1, simulate_until_max_customers(0): UnboundLocalError({e})")
+    return dict(confirmed=False, kind="whole-run", transcript="returned normally")
+
+
+REPLAYS["Simulation.simulate_until_max_customers"] = replay_max_customers_zero
